@@ -795,8 +795,8 @@ def process_commandline(out: OutputBuffer, args: List[str]) -> 'AuditConf':  # p
     # Add short options to the parser
     parser.add_argument("-1", "--ssh1", action="store_true", dest="ssh1", default=False, help="force ssh version 1 only")
     parser.add_argument("-2", "--ssh2", action="store_true", dest="ssh2", default=False, help="force ssh version 2 only")
-    parser.add_argument("-4", "--ipv4", action="store_true", dest="ipv4", default=False, help="enable IPv4 (order of precedence)")
-    parser.add_argument("-6", "--ipv6", action="store_true", dest="ipv6", default=False, help="enable IPv6 (order of precedence)")
+    parser.add_argument("-4", "--ipv4", action="append_const", const=4, dest="ip_versions", help="enable IPv4 (order of precedence)")
+    parser.add_argument("-6", "--ipv6", action="append_const", const=6, dest="ip_versions", help="enable IPv6 (order of precedence)")
     parser.add_argument("-b", "--batch", action="store_true", dest="batch", default=False, help="batch output")
     parser.add_argument("-c", "--client-audit", action="store_true", dest="client_audit", default=False, help="starts a server on port 2222 to audit client software config (use -p to change port; use -t to change timeout)")
     parser.add_argument("-d", "--debug", action="store_true", dest="debug", default=False, help="enable debugging output")
@@ -834,8 +834,12 @@ def process_commandline(out: OutputBuffer, args: List[str]) -> 'AuditConf':  # p
 
         # Set simple flags.
         aconf.client_audit = argument.client_audit
-        aconf.ipv4 = argument.ipv4
-        aconf.ipv6 = argument.ipv6
+        # Enable the IP versions in the order the options were given, since that defines their order of precedence (i.e.: -64 prefers IPv6 over IPv4).
+        for ip_version in (argument.ip_versions or []):
+            if ip_version == 4 and not aconf.ipv4:
+                aconf.ipv4 = True
+            elif ip_version == 6 and not aconf.ipv6:
+                aconf.ipv6 = True
         aconf.level = argument.level
         aconf.list_policies = argument.list_policies
         aconf.manual = argument.manual
